@@ -430,6 +430,207 @@ ep_op(int argc, char **argv)
     }
 }
 
+/* ---- length prefix (C13) ------------------------------------------------- */
+
+#include <ufw/length-prefix.h>
+
+static int
+lenp_kind(const char *k)
+{
+    static const char *names[] = { "var", "octet", "le16", "le32", "be16", "be32" };
+    for (int i = 0; i < 6; i++) if (strcmp(names[i], k) == 0) return i;
+    return -1;
+}
+
+/* "hex:used:off" -> ByteBuffer over an exact-size heap block */
+static bool
+parse_buf(const char *txt, ByteBuffer *b)
+{
+    char *dup = strdup(txt), *save = NULL;
+    char *mem = strtok_r(dup, ":", &save), *used = strtok_r(NULL, ":", &save), *off = strtok_r(NULL, ":", &save);
+    if (!mem || !used || !off) { free(dup); return false; }
+    size_t n; unsigned char *m = parse_hex(mem, &n);
+    if (!m) { free(dup); return false; }
+    b->data = m; b->size = n; b->used = strtoull(used, NULL, 10); b->offset = strtoull(off, NULL, 10);
+    free(dup);
+    return true;
+}
+
+static void
+print_buf(const ByteBuffer *b)
+{
+    printf("used=%zu off=%zu mem=", b->used, b->offset);
+    print_hex(b->data, b->used <= b->size ? b->used : b->size);
+}
+
+static void
+print_encoded(int rc, const LengthPrefixBuffer *lpb)
+{
+    if (rc < 0) { print_rc_strict(rc); return; }
+    printf("ok:0 prefix=");
+    print_hex(lpb->prefix.data + lpb->prefix.offset, lpb->prefix.used - lpb->prefix.offset);
+    printf(" plen=%zu", lpb->payload.size);
+}
+
+static void
+lenp_op(int argc, char **argv)
+{
+    const char *op = argv[0];
+    int k = argc > 1 ? lenp_kind(argv[1]) : -1;
+    if (k < 0) { printf("bad-op"); return; }
+    if (strcmp(op, "lenp.memenc") == 0 && argc == 3) {
+        unsigned char dummy[1] = { 0 };
+        LengthPrefixBuffer lpb;
+        memset(&lpb, 0, sizeof lpb);
+        int rc = flenp_memory_encode(k, &lpb, dummy, parse_u64(argv[2]));
+        print_encoded(rc, &lpb);
+        printf(" ## ");
+        print_encoded(rc, &lpb);
+    } else if (strcmp(op, "lenp.bufenc") == 0 && argc == 3) {
+        ByteBuffer b; LengthPrefixBuffer lpb;
+        if (!parse_buf(argv[2], &b)) { printf("bad-op"); return; }
+        memset(&lpb, 0, sizeof lpb);
+        int rc = flenp_buffer_encode(k, &lpb, &b);
+        print_encoded(rc, &lpb);
+        free(b.data);
+    } else if (strcmp(op, "lenp.bufenc_n") == 0 && argc == 4) {
+        ByteBuffer b; LengthPrefixBuffer lpb;
+        if (!parse_buf(argv[2], &b)) { printf("bad-op"); return; }
+        memset(&lpb, 0, sizeof lpb);
+        int rc = flenp_buffer_encode_n(k, &lpb, &b, parse_u64(argv[3]));
+        print_encoded(rc, &lpb);
+        putchar(' ');
+        print_buf(&b);
+        free(b.data);
+    } else if ((strcmp(op, "lenp.chunksuse") == 0 && argc == 4) || (strcmp(op, "lenp.chunks2sink") == 0 && argc == 6)) {
+        ByteBuffer cb[16]; size_t nc = 0;
+        char *dup = strdup(argv[2]), *save = NULL;
+        for (char *t = strtok_r(dup, "|", &save); t && nc < 16; t = strtok_r(NULL, "|", &save))
+            if (!parse_buf(t, &cb[nc++])) { printf("bad-op"); return; }
+        free(dup);
+        ByteChunks chunks = { .chunks = nc, .active = parse_u64(argv[3]), .chunk = cb };
+        if (op[11] == 'u') {
+            LengthPrefixChunks lpc;
+            memset(&lpc, 0, sizeof lpc);
+            lpc.payload = chunks;
+            int rc = flenp_chunks_use(k, &lpc);
+            if (rc < 0) print_rc_strict(rc);
+            else { printf("ok:0 prefix="); print_hex(lpc.prefix.data + lpc.prefix.offset, lpc.prefix.used - lpc.prefix.offset); }
+        } else {
+            struct ssnk kd = { .n = 0 };
+            if (!parse_script(argv[5], &kd.sc)) { printf("bad-op"); return; }
+            Sink snk; mk_sink(&snk, argv[4], &kd);
+            ssize_t rc = flenp_chunks_to_sink(k, &snk, &chunks);
+            for (int view = 0; view < 2; view++) {
+                if (view) printf(" ## ");
+                print_rc_strict(rc); printf(" got="); print_hex(kd.got, kd.n);
+            }
+            free(kd.got);
+        }
+        for (size_t i = 0; i < nc; i++) free(cb[i].data);
+    } else if (strcmp(op, "lenp.mem2sink") == 0 && argc == 5) {
+        size_t n; unsigned char *p = parse_hex(argv[2], &n);
+        struct ssnk kd = { .n = 0 };
+        if (!p || !parse_script(argv[4], &kd.sc)) { printf("bad-op"); return; }
+        Sink snk; mk_sink(&snk, argv[3], &kd);
+        ssize_t rc = flenp_memory_to_sink(k, &snk, p, n);
+        for (int view = 0; view < 2; view++) {
+            if (view) printf(" ## ");
+            print_rc_strict(rc); printf(" got="); print_hex(kd.got, kd.n);
+        }
+        free(kd.got); free(p);
+    } else if (strcmp(op, "lenp.big2sink") == 0 && argc == 4) {
+        unsigned char dummy[1] = { 0 };
+        struct ssnk kd = { .n = 0 };
+        Sink snk; mk_sink(&snk, argv[3], &kd);
+        ssize_t rc = flenp_memory_to_sink(k, &snk, dummy, parse_u64(argv[2]));
+        print_rc_strict(rc); printf(" got="); print_hex(kd.got, kd.n);
+        free(kd.got);
+    } else if ((strcmp(op, "lenp.buf2sink") == 0 && argc == 5) || (strcmp(op, "lenp.buf2sink_n") == 0 && argc == 6)) {
+        bool withn = argc == 6;
+        ByteBuffer b;
+        struct ssnk kd = { .n = 0 };
+        if (!parse_buf(argv[2], &b) || !parse_script(argv[withn ? 5 : 4], &kd.sc)) { printf("bad-op"); return; }
+        Sink snk; mk_sink(&snk, argv[withn ? 4 : 3], &kd);
+        ssize_t rc = withn ? flenp_buffer_to_sink_n(k, &snk, &b, parse_u64(argv[3])) : flenp_buffer_to_sink(k, &snk, &b);
+        for (int view = 0; view < 2; view++) {
+            if (view) printf(" ## ");
+            print_rc_strict(rc); printf(" got="); print_hex(kd.got, kd.n);
+            if (withn) printf(" off=%zu", b.offset);
+        }
+        free(kd.got); free(b.data);
+    } else if ((strcmp(op, "lenp.mem_from") == 0 && argc == 6) || (strcmp(op, "lenp.buf_from") == 0 && argc == 6)) {
+        struct ssrc sd = { .pos = 0 };
+        size_t len; unsigned char *stream = parse_hex(argv[2], &len);
+        if (!stream || !parse_script(argv[4], &sd.sc)) { printf("bad-op"); return; }
+        sd.stream = stream; sd.len = len;
+        Source src; mk_source(&src, argv[3], &sd);
+        if (op[5] == 'm') {
+            size_t size = parse_u64(argv[5]);
+            unsigned char *mem = malloc(size ? size : 1);       /* exact size */
+            ssize_t rc = flenp_memory_from_source(k, &src, mem, size);
+            print_rc_strict(rc); printf(" data="); print_hex(mem, rc > 0 ? (size_t)rc : 0);
+            printf(" consumed=%zu", sd.pos);
+            free(mem);
+        } else {
+            ByteBuffer b;
+            if (!parse_buf(argv[5], &b)) { printf("bad-op"); return; }
+            ssize_t rc = flenp_buffer_from_source(k, &src, &b);
+            print_rc_strict(rc); putchar(' '); print_buf(&b);
+            printf(" consumed=%zu", sd.pos);
+            free(b.data);
+        }
+        free(stream);
+    } else if (strcmp(op, "lenp.s2s") == 0 && argc == 7) {
+        struct ssrc sd = { .pos = 0 };
+        struct ssnk kd = { .n = 0 };
+        size_t len; unsigned char *stream = parse_hex(argv[2], &len);
+        if (!stream || !parse_script(argv[4], &sd.sc) || !parse_script(argv[6], &kd.sc)) { printf("bad-op"); return; }
+        sd.stream = stream; sd.len = len;
+        Source src; mk_source(&src, argv[3], &sd);
+        Sink snk; mk_sink(&snk, argv[5], &kd);
+        ssize_t rc = flenp_decode_source_to_sink(k, &src, &snk);
+        print_rc_strict(rc); printf(" got="); print_hex(kd.got, kd.n); printf(" consumed=%zu", sd.pos);
+        free(kd.got); free(stream);
+    } else if (strcmp(op, "lenp.frames") == 0 && argc == 6) {
+        /* encode each payload with the library into one wire image, decode frame by frame */
+        struct ssnk wire = { .n = 0 };
+        Sink wsnk; mk_sink(&wsnk, "c", &wire);
+        char *list = strdup(argv[2]), *save = NULL;
+        char *payloads[64]; size_t np = 0;
+        for (char *t = strtok_r(list, ",", &save); t && np < 64; t = strtok_r(NULL, ",", &save)) payloads[np++] = t;
+        for (size_t i = 0; i < np; i++) {
+            size_t n; unsigned char *p = parse_hex(payloads[i], &n);
+            flenp_memory_to_sink(k, &wsnk, p, n);
+            free(p);
+        }
+        struct ssrc sd = { .pos = 0 };
+        if (!parse_script(argv[4], &sd.sc)) { printf("bad-op"); return; }
+        sd.stream = wire.got; sd.len = wire.n;
+        Source src; mk_source(&src, argv[3], &sd);
+        size_t cap = parse_u64(argv[5]);
+        char *out = NULL; size_t ol = 0;
+        FILE *f = open_memstream(&out, &ol);
+        for (size_t i = 0; i < np; i++) {
+            unsigned char *mem = malloc(cap ? cap : 1);
+            ssize_t rc = flenp_memory_from_source(k, &src, mem, cap);
+            if (i) fputc(',', f);
+            if (rc < 0) { fprintf(f, "err:%s", errname((int)-rc)); free(mem); break; }
+            if (rc == 0) fputc('-', f);
+            for (ssize_t j = 0; j < rc; j++) fprintf(f, "%02x", mem[j]);
+            free(mem);
+        }
+        fclose(f);
+        for (int view = 0; view < 2; view++) {
+            if (view) printf(" ## ");
+            printf("wire="); print_hex(wire.got, wire.n); printf(" frames=%s", out);
+        }
+        free(out); free(list); free(wire.got);
+    } else {
+        printf("bad-op");
+    }
+}
+
 static void
 harness_reset(void)
 {
@@ -440,6 +641,7 @@ harness_op(int argc, char **argv)
 {
     if (strncmp(argv[0], "slip.", 5) == 0) slip_op(argc, argv);
     else if (strncmp(argv[0], "ep.", 3) == 0 || strcmp(argv[0], "sts") == 0) ep_op(argc, argv);
+    else if (strncmp(argv[0], "lenp.", 5) == 0) lenp_op(argc, argv);
     else printf("bad-op");
 }
 
